@@ -68,6 +68,7 @@ def instMsg (n : String) (id : Nat) (r : R) (ok : Bool) : M R Unit :=
 def deployInsts (n : String) : List R → M R Unit
   | [] => pure ()
   | r :: rest => do
+    renew
     let s ← getSt
     let ok ← attempt (do let _ ← deployOne n r true; pure ())
     instMsg n s.next r ok
@@ -81,6 +82,7 @@ def noteNodeFailed (n : String) (rs : List R) : M R Unit :=
 
 /-- `doDeployWorkloadsOnNode` -/
 def deployNode (n : String) (rs : List R) : M R Unit := do
+  renew
   let ok ← attempt (readStep "storeGetNode" n)       -- doGetAndPrepareNode
   if ok then deployInsts n rs
   else do
@@ -139,8 +141,8 @@ def deleteMarkers (a : CreateArgs R) : M R Unit := do
 markers are deleted BEFORE their WAL events are committed, /repo 3c42b65) -/
 def create (a : CreateArgs R) : M R Unit := do
   let _ ← attempt (createTxn a)
-  deleteMarkers a
-  commitProcessing a
-  commitAllocated
+  withDetached (deleteMarkers a)        -- deferred calls use a context detached from the request's
+  withDetached (commitProcessing a)
+  withDetached commitAllocated
 
 end Eru.Cluster
